@@ -143,6 +143,33 @@ theorem getNonDefaultArgs_spec (cached : Option (List String)) (params : List (S
 
 example : getNonDefaultArgs none [("a", false), ("b", true), ("args", false), ("kwargs", false)] = ["a"] := by decide
 
+/-- **From the values passed** (`callable(...)`, the cached names and the signature are derived, not given):
+    `Model(forward, R, D, gradient, jacobian)` succeeds iff `forward` is a function or a `Model`, at most one of
+    `gradient` / `jacobian` is given (not `None`) and it is a function or a `Model`, and both geometry arguments are
+    accepted; the model's input names are then the parameters of `forward` without default (not named `args` /
+    `kwargs`), resp. the wrapped model's names — in particular their NUMBER is that of the signature. -/
+theorem modelInitPy_spec (fwd grad jac : PyArg) (ra da : GeomArg) :
+    ((∃ r, modelInitPy fwd grad jac ra da = .ok r) ↔
+      fwd.callable = true ∧ ¬ (grad ≠ .noneObj ∧ jac ≠ .noneObj) ∧ (grad = .noneObj ∨ grad.callable = true)
+        ∧ (jac = .noneObj ∨ jac.callable = true) ∧ ra.Accepted ∧ da.Accepted)
+    ∧ ∀ r, modelInitPy fwd grad jac ra da = .ok r →
+        r.nonDefaultArgs = (match fwd with
+          | .modelObject a => a
+          | .function p => (p.filter (fun q => q.1 != "kwargs" && q.1 != "args" && !q.2)).map Prod.fst
+          | _ => []) := by
+  constructor
+  · unfold modelInitPy
+    rw [modelInit_ok_iff]
+    simp only [ModelInitArgs.FuncsOK, PyArg.toOpt]
+    cases fwd <;> cases grad <;> cases jac <;> simp [PyArg.callable]
+  · intro r h
+    have := (modelInit_result _ r h).2.2.2.2.2
+    rw [this]
+    cases fwd <;> rfl
+
+example : ∃ r, modelInitPy (.function [("x", false), ("b", true)]) .noneObj (.function [("wrt", false)]) (.int 2) (.int 3) = .ok r
+    ∧ r.nonDefaultArgs = ["x"] := ⟨_, rfl, rfl⟩
+
 /-- **`LinearModel(matrix)`**: whatever `adjoint` is, a forward operator with a `.shape` is accepted
     when the geometry arguments are accepted *or missing*; missing ones become default geometries of the
     matrix' row / column count; the input is called `x`.  A non-callable without `.shape` (list of
